@@ -120,6 +120,23 @@ public:
     }
 
     /**
+     * @brief Get the value pointer and tell whether the slot is empty.
+     *
+     * The payload is loaded once. @a empty is set when the slot holds no entry (never used, or cleared by a
+     * concurrent remove): a reader that located the slot before the removal can tell this apart from a value.
+     *
+     * @param[out] empty true if the slot holds neither a value nor a next layer.
+     * @retval The pointer of the contained value if exists.
+     * @retval nullptr otherwise.
+     */
+    [[nodiscard]] value* get_value(bool& empty) const {
+        const auto ptr = loadAcquireN(child_or_v_);
+        empty = (ptr == kValPtrFlag);
+        if ((ptr & kChildFlag) > 0 || empty) { return nullptr; }
+        return reinterpret_cast<value*>(ptr); // NOLINT
+    }
+
+    /**
      * @brief Initialize the payload to zero.
      *
      */
